@@ -289,6 +289,21 @@ def generate(rng, profile):
             name = "d%d/fc%s" % (k, same_base)
         parties.append({"name": name, "format": fmt, "times": t_idx, "leadtimes": l_idx, "locations": s_idx,
                         "fields": fields, "miss": miss, "layout": layout})
+    if has_clim and rng.random() < p.get("p_zero_cases", 0.2):
+        # exact zeros (dry days): the climatology is 0 at a few cases, the observation is 0 there in every
+        # file that has it, and some files forecast 0 while others do not (0/0 and x/0 under -C)
+        for _ in range(rng.randint(1, 3)):
+            ti, li, si = rng.randrange(nT), rng.randrange(nL), rng.randrange(nS)
+            for k, party in enumerate(parties):
+                if ti in party["times"] and li in party["leadtimes"] and si in party["locations"]:
+                    i, j, s_ = party["times"].index(ti), party["leadtimes"].index(li), party["locations"].index(si)
+                    is_clim_party = has_clim and k == n_parties - 1
+                    for name in ("obs", "fcst"):
+                        g = party["fields"].get(name)
+                        if g is None or g[i][j][s_] is None:
+                            continue
+                        if name == "obs" or is_clim_party or rng.random() < 0.5:
+                            g[i][j][s_] = 0.0
     world = {"universe": {"times": times, "leadtimes": leadtimes, "locations": locs}, "variable": var,
              "inputs": parties[:n_inputs], "clim": parties[n_inputs] if has_clim else None}
     return world
